@@ -240,16 +240,27 @@ def check(pid, tier):
             rank = rng.choice([0, 0, 1, 2]) if nax < 3 else 0
             smo = [rng.choice(KCAT) if n >= 2 else [] for n in shape]
             D = common_den(smo, shape)
-            if D * 10 >= 2 ** 31 or int(np.prod(shape)) * 3 ** rank > 80:
+            if D * 20 >= 2 ** 31 or int(np.prod(shape)) * 3 ** rank > 80:
                 continue
             data = [rng.randint(-9, 9) for _ in range(int(np.prod(shape)) * 3 ** rank)]
-            res = make_result(shape, rank, data, smo)
+            # the result is built directly or comes out of +, * or transform (which have to carry the smoothers along)
+            how = rng.choice(["plain", "plain", "sum", "scaled", "transformed"])
+            if how == "sum":
+                part = [rng.randint(-9, 9) for _ in data]
+                res = make_result(shape, rank, part, smo) + make_result(shape, rank, [d - q for d, q in zip(data, part)], smo)
+            elif how == "scaled":
+                data = [2 * d for d in data]
+                res = make_result(shape, rank, [d // 2 for d in data], smo) * 2
+            elif how == "transformed":
+                res = make_result(shape, rank, data, smo).transform(RA.real_syms()["Identity"])
+            else:
+                res = make_result(shape, rank, data, smo)
             try:
                 out = scaled_ints(res.dataSmooth, D)
             except RA.NonIntegral as ex:
                 found.add("EnergyResult.dataSmooth:non-integral projection", dict(energy_shape=shape, rank=rank, smoothers=smo, data=data, got=str(ex)))
                 continue
-            recs.append(dict(fn="smooth", shape=list(shape), rank=rank, smo=smo, data=data, D=D, out=out))
+            recs.append(dict(fn="smooth", shape=list(shape), rank=rank, smo=smo, data=data, D=D, out=out, built=how))
         elif r_ < 0.85:
             fs = tuple(rng.randint(1, 5) for _ in range(rng.randint(1, 3)))
             cand = [a for a in range(len(fs)) if fs[a] >= 2]
